@@ -9,6 +9,7 @@ from pathlib import Path
 import numpy as np
 
 import storelib as sl
+import common
 from common import run_driver
 
 RULE = ("three streams. (1) save histories: 1-8 saves through save_json into one data.json, names drawn from a pool so that "
@@ -464,6 +465,69 @@ def coq_shard(ctx, limit=200):
                       {"log": log}, found_input=False)
 
 
+# ---------------------------------------------------------------- the real save() with every saver; other writers
+def stream_full_save(ctx, n_cases: int):
+    """(A) save() as the commands call it - ALL registered savers, plots included - must store exactly the matrices it was
+    handed and leave the Output untouched; (B) saves interleaved with another writer of the same results file (another
+    process; the same file under another spelling of its path) must keep every entry."""
+    import os
+    import subprocess
+    import sys
+    import tempfile
+    import matplotlib
+    matplotlib.use("Agg")
+    from argparse import Namespace
+    save = _mods()
+    rng = ctx.rng
+    for i in range(n_cases):
+        rows, cols = rng.randint(1, 5), rng.randint(1, 4)
+        data = np.array([[rng.choice([rng.uniform(-3, 3), -1.1e-16, -2.2e-16, 0.0, rng.uniform(0, 50)]) for _ in range(cols)]
+                         for _ in range(rows)], dtype=float)
+        actions = np.array([[float(rng.randint(3, 30)) for _ in range(cols)] for _ in range(max(rows - 1, 1))])
+        data0, actions0 = data.copy(), actions.copy()
+        out = save.Output(data, actions, Namespace(func=print, number_of_players=3, tag=f"t{i}"))
+        with tempfile.TemporaryDirectory(dir=str(ctx.work)) as d:
+            md = Path(d) / "model"
+            save.save(md, f"run{i}", out)
+            back = save.Output.from_file(md / "data.json", f"run{i}")
+        ctx.evaluations += 1
+        ctx.count("full_save", "negative" if (data0 < 0).any() else "non-negative")
+        if not (_arr_eq(back.data, data0) and _arr_eq(back.actions, actions0)):
+            ctx.violation("save() (all savers) stored a gap/action matrix different from the one it was handed",
+                          {"handed_data": data0.tolist(), "stored_data": np.asarray(back.data).tolist(),
+                           "handed_actions": actions0.tolist(), "stored_actions": np.asarray(back.actions).tolist()})
+        elif not (_arr_eq(out.data, data0) and _arr_eq(out.actions, actions0)):
+            ctx.violation("save() modified the Output it was handed", {"before": data0.tolist(), "after": np.asarray(out.data).tolist()})
+    # (B) another writer between two saves of this process
+    helper = ("import sys, numpy as np; from argparse import Namespace; from pathlib import Path; "
+              "from incomplete_cooperative.run.save import Output, save_json; "
+              "save_json(Path(sys.argv[1]), sys.argv[2], Output(np.array([[float(sys.argv[3])]]), np.array([[1.0]]), Namespace(func=print)))")
+    for variant in ("other-process", "other-spelling"):
+        with tempfile.TemporaryDirectory(dir=str(ctx.work)) as d:
+            path = Path(d) / "data.json"
+            mk = lambda x: save.Output(np.array([[float(x)]]), np.array([[1.0]]), Namespace(func=print))
+            save.save_json(path, "a", mk(1))
+            if variant == "other-process":
+                env = dict(os.environ, PYTHONPATH=str(common.REPO))
+                subprocess.run([sys.executable, "-W", "ignore", "-c", helper, str(path), "b", "2"], check=True, env=env,
+                               stdout=subprocess.DEVNULL, stderr=subprocess.DEVNULL)
+            else:
+                cwd = os.getcwd()
+                os.chdir(d)
+                try:
+                    save.save_json(Path("data.json"), "b", mk(2))
+                finally:
+                    os.chdir(cwd)
+            save.save_json(path, "c", mk(3))
+            save.save_json(path, "b", mk(4))          # existing name: must change nothing
+            got = {k: float(v.data[0][0]) for k, v in save.get_outputs_from_file(path).items()}
+        ctx.evaluations += 1
+        ctx.count("interleaved_writer", variant)
+        if got != {"a": 1.0, "b": 2.0, "c": 3.0}:
+            ctx.violation(f"an entry saved by another writer ({variant}) was lost or overwritten by a later save",
+                          {"variant": variant, "file_holds": got, "expected": {"a": 1.0, "b": 2.0, "c": 3.0}})
+
+
 # ---------------------------------------------------------------- entry points
 def run(ctx, proof):
     quick = ctx.quick
@@ -471,6 +535,7 @@ def run(ctx, proof):
     mism += stream_histories(ctx, 150 if quick else 4000)
     mism += stream_nested(ctx, 150 if quick else 3000)
     mism += stream_commands(ctx, 12 if quick else 120)
+    stream_full_save(ctx, 12 if quick else 80)
     if mism and not any(v["found_input"] for v in ctx.violations):
         ctx.violation("correspondence broken: save_json / Output.from_json / np.array (impl) vs st_run_outputs / st_from_json / "
                       "st_of_list (Store.v); no input violating the property found", {"mismatches": len(mism), "first": mism[0]},
